@@ -1,4 +1,4 @@
-/-! Prototype: mirror of internal/strings/convert.go ToUpper on code points with a byte output buffer. -/
+/-! Mirror of internal/strings/convert.go ToUpper on code points with a byte output buffer (after the `< utf8.RuneSelf` repair). -/
 namespace U
 abbrev Byte := UInt8
 
@@ -10,7 +10,7 @@ def loop2 (up : Char → Char) (cap : Nat) (out : List Byte) : List Char → Lis
   | [] => out
   | c :: cs =>
     let r := up c
-    if r.val ≤ 0x80 ∧ out.length < cap then loop2 up cap (out ++ [r.val.toUInt8]) cs   -- `r <= utf8.RuneSelf`
+    if r.val < 0x80 ∧ out.length < cap then loop2 up cap (out ++ [r.val.toUInt8]) cs   -- `r < utf8.RuneSelf`
     else
       let cap := if out.length + 4 ≥ cap then 2 * cap else cap
       loop2 up cap (out ++ enc r) cs
@@ -27,12 +27,12 @@ def toUpper (up : Char → Char) (bufLen : Nat) (s : List Char) : List Byte :=
         let sLen := ((pre ++ c :: cs).flatMap enc).length
         let cap := if bufLen ≥ sLen + 4 then bufLen else sLen + 4
         let out := pre.flatMap enc
-        let out := if r.val ≤ 0x80 then out ++ [r.val.toUInt8] else out ++ enc r
+        let out := if r.val < 0x80 then out ++ [r.val.toUInt8] else out ++ enc r
         loop2 up cap out cs
   go [] s
 
 def upAscii (c : Char) : Char := if 'a' ≤ c ∧ c ≤ 'z' then Char.ofNat (c.toNat - 32) else c
-#eval toUpper upAscii 10 "a\u0080".toList        -- Go: [65, 0x80] (invalid UTF-8)
+#eval toUpper upAscii 10 "a\u0080".toList        -- [65, 0xC2, 0x80]
 #eval ("A\u0080".toList.flatMap enc)             -- spec: [65, 0xC2, 0x80]
 #eval toUpper upAscii 10 "\u0080a".toList        -- first loop passes U+0080 unchanged, then 'a' → prefix copied verbatim: ok
 #eval toUpper upAscii 10 "abc".toList
@@ -40,8 +40,6 @@ def upAscii (c : Char) : Char := if 'a' ≤ c ∧ c ≤ 'z' then Char.ofNat (c.t
 /-- the specification -/
 def spec (up : Char → Char) (s : List Char) : List Byte := (s.map up).flatMap enc
 
-theorem toUpper_spec (up : Char → Char) (bufLen : Nat) (s : List Char)
-    (h : ∀ c ∈ s, (up c).val ≠ 0x80 ∨ up c = c) : True := trivial   -- statement placeholder; see DESIGN C18
 end U
 
 namespace U
@@ -62,58 +60,52 @@ theorem enc_ascii (c : Char) (h : c.val < 0x80) : enc c = [c.val.toUInt8] := by
     simp at this ⊢; omega
   exact String.utf8EncodeChar_eq_singleton h1
 
-/-- second loop: every remaining rune is written correctly, unless its upper case is U+0080 -/
+/-- second loop: every remaining rune is written correctly -/
 theorem loop2_spec (up : Char → Char) : ∀ (cs : List Char) (cap : Nat) (out : List Byte),
-    (∀ c ∈ cs, (up c).val ≠ 0x80) → loop2 up cap out cs = out ++ (cs.map up).flatMap enc := by
+    loop2 up cap out cs = out ++ (cs.map up).flatMap enc := by
   intro cs
   induction cs with
-  | nil => intro cap out _; simp [loop2]
+  | nil => intro cap out; simp [loop2]
   | cons c cs ih =>
-    intro cap out h
-    have hc := h c (by simp)
-    have hcs : ∀ c ∈ cs, (up c).val ≠ 0x80 := fun c hm => h c (by simp [hm])
+    intro cap out
     unfold loop2
     simp only []
     split
     · rename_i hcond
-      have hlt : (up c).val < 0x80 := u32_lt_of_le_ne _ hcond.1 hc
-      rw [ih _ _ hcs]
-      simp [enc_ascii _ hlt, List.append_assoc]
-    · rw [ih _ _ hcs]
+      rw [ih]
+      simp [enc_ascii _ hcond.1, List.append_assoc]
+    · rw [ih]
       simp [List.append_assoc]
 
-/-- C18: the custom ToUpper equals encode ∘ map up ∘ decode on every valid string and for every buffer size,
-    provided no rune's upper case is U+0080 (the `<= RuneSelf` defect; with `<` the hypothesis disappears) -/
-theorem toUpper_spec' (up : Char → Char) (bufLen : Nat) (s : List Char) (h : ∀ c ∈ s, (up c).val ≠ 0x80) :
+/-- C18: the custom ToUpper equals encode ∘ map up ∘ decode on every valid string, for every case mapping `up` and every
+    buffer size. (Before the repair of `r <= utf8.RuneSelf` this needed the hypothesis that no upper case is U+0080.) -/
+theorem toUpper_spec' (up : Char → Char) (bufLen : Nat) (s : List Char) :
     toUpper up bufLen s = spec up s := by
   unfold toUpper spec
-  suffices H : ∀ (rest pre : List Char), (∀ c ∈ pre, up c = c) → (∀ c ∈ rest, (up c).val ≠ 0x80) →
+  suffices H : ∀ (rest pre : List Char), (∀ c ∈ pre, up c = c) →
       toUpper.go up bufLen pre rest = ((pre ++ rest).map up).flatMap enc by
-    simpa using H s [] (by simp) h
+    simpa using H s [] (by simp)
   intro rest
   induction rest with
   | nil =>
-    intro pre hp _
+    intro pre hp
     have hpre : pre.map up = pre := (List.map_congr_left (fun c hc => hp c hc)).trans (by simp)
     simp [toUpper.go, hpre]
   | cons c cs ih =>
-    intro pre hp hr
-    have hc := hr c (by simp)
-    have hcs : ∀ c ∈ cs, (up c).val ≠ 0x80 := fun c hm => hr c (by simp [hm])
+    intro pre hp
     have hpre : pre.map up = pre := (List.map_congr_left (fun c hc => hp c hc)).trans (by simp)
     unfold toUpper.go
     simp only []
     by_cases heq : (up c == c) = true
     · simp only [heq, ↓reduceIte]
       have e : up c = c := by simpa using heq
-      have := ih (pre ++ [c]) (by intro x hx; rcases List.mem_append.mp hx with h | h; exact hp x h; simp at h; subst h; exact e) hcs
+      have := ih (pre ++ [c]) (by intro x hx; rcases List.mem_append.mp hx with h | h; exact hp x h; simp at h; subst h; exact e)
       simpa [List.append_assoc] using this
     · simp only [heq, Bool.false_eq_true, ↓reduceIte]
-      rw [loop2_spec up cs _ _ hcs]
-      by_cases hle : (up c).val ≤ 0x80
-      · have hlt : (up c).val < 0x80 := u32_lt_of_le_ne _ hle hc
-        simp [hle, List.map_append, List.flatMap_append, hpre, enc_ascii _ hlt, List.append_assoc]
-      · simp [hle, List.map_append, List.flatMap_append, hpre, List.append_assoc]
+      rw [loop2_spec up cs _ _]
+      by_cases hlt : (up c).val < 0x80
+      · simp [hlt, List.map_append, List.flatMap_append, hpre, enc_ascii _ hlt, List.append_assoc]
+      · simp [hlt, List.map_append, List.flatMap_append, hpre, List.append_assoc]
 
 #print axioms toUpper_spec'
 end U
